@@ -35,3 +35,49 @@ package state
 //@   modifies *
 //@   opt ghost:tJoin ghost(clk) + 1
 //@   opt ghost:clk ghost(clk) + 1
+
+// ---------------------------------------------------------------------------
+// C37 / C15: abstract world state for balance arithmetic: an account state object per
+// (world context, account id), and a ghost ledger bal[account state] of its balance
+// ---------------------------------------------------------------------------
+//@ property C37 C15
+//@ smt all (declare-fun acct_of (Iface BSeq) Iface)
+//@ smt all (declare-ghost bal (Array Iface Int))
+//@ smt int (declare-fun wc_price (Iface) Int)
+//@ func (c WorldContext) GetAccountState(id) (as)
+//@   iface
+//@   trusted
+//@   pure
+//@   ensures as == acct_of(c, seq(id)) && as != nil
+//@ func (c WorldContext) StepPrice() (p)
+//@   iface
+//@   trusted
+//@   pure
+//@   ensures p != nil && big(p) == wc_price(c) && wc_price(c) >= 0
+//@ func (c WorldContext) Revision() (r)
+//@   iface
+//@   trusted
+//@   pure
+//@ func (c WorldContext) StepsFor(t, n) (s)
+//@   iface
+//@   trusted
+//@   pure
+//@ func (a AccountState) GetBalance() (b)
+//@   iface
+//@   trusted
+//@   pure
+//@   ensures b != nil && fresh(b) && big(b) == ghost(bal)[a]
+//@ func (a AccountState) SetBalance(v)
+//@   iface
+//@   trusted
+//@   pure
+//@   requires v != nil
+//@   opt ghost:bal store(ghost(bal), a, big(v))
+//@ func (a AccountState) IsBlocked() (r)
+//@   iface
+//@   trusted
+//@   pure
+//@ func (a AccountState) CanAcceptTx(pc) (r)
+//@   iface
+//@   trusted
+//@   pure
